@@ -15,7 +15,7 @@ MC_RPolys == (2 :> <<4>> @@ 3 :> <<9>> @@ 7 :> <<1>>)
 MC_DCoeffs == <<8>>
 MC_KNonce == 2
 MC_Crash == {{b} : b \in {"dkg1","dkg2","dkg3","commit","rdkg1","rdkg2","rdkg3","dealer_share","dealer_kp","repair_delta","repair_sigma","repair_kp","commit2"}} \cup {{}, {"dkg1","dkg2","dkg3","commit","rdkg1","rdkg2","rdkg3","dealer_share","dealer_kp","repair_delta","repair_sigma","repair_kp","commit2"}}
-MC_Forms == {"bin","json"}
+MC_Forms == {"bin","json","parts"}
 MC_Msg == <<104,105>>
 MC_EMIT == TRUE
 
